@@ -452,6 +452,70 @@ theorem C19_conn_stream (maxStatic : Nat) (ops : List COp) :
   have := key ops (({} : Pool), ({ out := { maxStatic := maxStatic } } : ConnIO.Conn)) h0
   simpa [stream, EBuf.content, ERing.content, LList.content] using this
 
+/-! ### the pending-write queue of a backend connection under arbitrary short writes -/
+
+inductive QOp
+  | enqueue (req : Bytes)             -- `EnqueueOutFrag`
+  | signal (accepted : List Nat)      -- the poller runs `handleWriteSignal`; bytes accepted by each vectored write
+  | writable (accepted : Nat)         -- a writable event drains the backlog
+  deriving Repr
+
+def bqstep (s : Pool × ConnIO.Conn) : QOp → Pool × ConnIO.Conn
+  | .enqueue req => (s.1, ConnIO.enqueue s.2 req)
+  | .signal accs => ConnIO.writeSignal s.1 s.2 accs
+  | .writable acc => ConnIO.flush s.1 s.2 acc
+
+def enqueued : List QOp → Bytes
+  | [] => []
+  | .enqueue req :: ops => req ++ enqueued ops
+  | _ :: ops => enqueued ops
+
+open RcVerif.Lemmas.ConnIOBuf in
+theorem bqstep_spec (s : Pool × ConnIO.Conn) (h : CInv s.1 s.2) (op : QOp) :
+    CInv (bqstep s op).1 (bqstep s op).2 ∧ qstream (bqstep s op).2 = qstream s.2 ++ enqueued [op] := by
+  cases op with
+  | enqueue req =>
+    have := enqueue_spec s.1 s.2 h req
+    simpa [enqueued, bqstep] using this
+  | signal accs =>
+    have := writeSignal_spec s.1 s.2 h accs (by decide)
+    simpa [enqueued, bqstep] using ⟨this.1, this.2.1⟩
+  | writable acc =>
+    have := flush_spec s.1 s.2 h acc
+    refine ⟨this.1, ?_⟩
+    simp only [bqstep, enqueued, List.append_nil, qstream, this.2, flush_queue]
+
+theorem enqueued_cons (op : QOp) (ops : List QOp) : enqueued (op :: ops) = enqueued [op] ++ enqueued ops := by
+  cases op <;> simp [enqueued]
+
+open RcVerif.Lemmas.ConnIOBuf in
+/-- **C10 under a backlog**: for every sequence of requests queued on a backend connection, write signals and writable
+    events, and EVERY choice of how many bytes the kernel accepts in each write, what is on the wire, followed by the
+    backlog, followed by what is still queued, is exactly the requests in the order they were queued -/
+theorem C10_queue_stream (maxStatic : Nat) (ops : List QOp) :
+    let fin := ops.foldl bqstep (({} : Pool), ({ out := { maxStatic := maxStatic } } : ConnIO.Conn))
+    fin.2.wire ++ fin.2.out.content ++ fin.2.queue.flatten = enqueued ops := by
+  have key : ∀ (ops : List QOp) (s : Pool × ConnIO.Conn), CInv s.1 s.2 →
+      qstream (ops.foldl bqstep s).2 = qstream s.2 ++ enqueued ops := by
+    intro ops
+    induction ops with
+    | nil => intro s _; simp [enqueued]
+    | cons op ops ih =>
+      intro s h
+      obtain ⟨h1, h2⟩ := bqstep_spec s h op
+      rw [List.foldl_cons, ih (bqstep s op) h1, h2, enqueued_cons op ops, List.append_assoc]
+  have h0 : CInv ({} : Pool) ({ out := { maxStatic := maxStatic } } : ConnIO.Conn) :=
+    ⟨pinv_empty, ⟨fun _ h => by simp at h, inv_empty⟩⟩
+  have := key ops (({} : Pool), ({ out := { maxStatic := maxStatic } } : ConnIO.Conn)) h0
+  simpa [qstream, stream, EBuf.content, ERing.content, LList.content] using this
+
+/- non-vacuity: two requests queued, the kernel takes 3 bytes of the vectored write, a third request is queued behind
+   the backlog, a writable event drains the backlog, the write signal runs while the kernel takes nothing: order kept -/
+example :
+    let fin := [QOp.enqueue [1, 2], .enqueue [3, 4], .signal [3], .enqueue [5, 6], .writable 2, .signal [0]].foldl bqstep
+      (({} : Pool), ({ out := { maxStatic := 8 } } : ConnIO.Conn))
+    fin.2.wire = [1, 2, 3, 4] ∧ fin.2.out.content = [5, 6] ∧ fin.2.queue = [] := by decide +kernel
+
 /- non-vacuity, kernel-evaluated: wrap-around and growth on a 4-byte ring; spill into the list -/
 example :
     (runR (Ring.new 4) [.write [1, 2, 3], .discard 2, .write [4, 5, 6], .peek (-1), .write [7, 8], .read 3, .peek 0]).2 =
